@@ -681,3 +681,87 @@ def _install_pi(world):
 
 
 _C.INSTALLERS.append(_install_pi)
+
+
+# ------------------------------------------------------------------------------------ DataClass closures (cls.py)
+
+DC_INST_FIELDS = dict(__dict__=DICT_WF)
+
+
+def _install_dc(world):
+    m = SchemaModel(world, SC, "DataClass", DC_INST_FIELDS)
+    world.models["DataClassInstance"] = m
+
+
+_C.INSTALLERS.append(_install_dc)
+
+
+def _dc_parser(pol_opts=None):
+    o = dict(override=FALSE, max_depth=NONE, collect_errors=FALSE, max_errors=NONE, mode=NONE, ignore_required=BOOL,
+             force_default=UNPROVIDED, no_default=BOOL, defer_default=BOOL, invalid_values=STR, immutable=BOOL)
+    return Rec("SchemaParser", options=Rec("Options", **o))
+
+
+def _dc_setup(ex, frame):
+    f = frame.closure["field"] if frame.closure and "field" in frame.closure else frame.env.get("field")
+    inst = frame.env["_obj_self"]
+    kb = ex.box(f.fields["attname"])
+    m = inst.fields["__dict__"]
+    ex.assume(ex.forall(0, m.n, lambda i: sym.py_eq(z3.Select(m.keys, i), kb) == (z3.Select(m.keys, i) == kb)))
+    t = f.fields["type"]
+    if isinstance(t, VCls):
+        ex.assume(sym.truthy_f(t.t))
+    d = f.fields["default"]
+    if isinstance(d, VObj):
+        ex.assume(d.t != ex.world.opaque_const("unprovided"))
+    v = frame.env.get("value")
+    u = ex.world.opaque_const("unprovided")
+    if isinstance(v, VObj):
+        ex.assume(v.t != u)
+        o = frame.closure["self"].fields["options"]
+        if isinstance(t, VCls):
+            ex.assume(converted_t(t.t, v.t, o.fields["no_explicit_cast"].t, o.fields["no_data_loss"].t) != u)
+
+
+_DC_UNCHANGED = "same_map(_obj_self.__dict__, old(snap(_obj_self.__dict__)))"
+_DC_ACC = "accepts(field.type, value, self)"
+_DC_CV = "converted(field.type, value, self)"
+
+
+@contract("utype/parser/cls.py", "ClassParser.make_setter.<locals>.setter", props=["C07"])
+class DC_SETTER:
+    """attribute assignment on a DataClass instance: the parsed value (never the raw one, never the
+    `unprovided` sentinel) is stored under the attribute name; a refusal leaves the instance as it was"""
+    cases = {pol: dict(_obj_self=Rec("DataClassInstance"), value=OBJ) for pol in ("throw", "exclude", "preserve")}
+    closure = dict(self=_dc_parser(), field=OBJ, post_setattr=NONE)
+    setup = staticmethod(_dc_setup)
+    requires = {"no_sentinel_stored": "no_unprovided(_obj_self.__dict__)"}
+    returns = {"no_sentinel_stored": "no_unprovided(_obj_self.__dict__)",
+               "other_attributes_untouched": "others_untouched(_obj_self.__dict__, old(snap(_obj_self.__dict__)), field.attname)",
+               "mutable_only": "not (self.options.immutable or field.final or field.field.immutable)"}
+    returns_by_case = {"throw": {"only_accepted_values": _DC_ACC, "stores_the_converted_value": "value_at(_obj_self.__dict__, field.attname, %s)" % _DC_CV},
+                       "preserve": {"stores_converted_or_raw": "value_at(_obj_self.__dict__, field.attname, (%s if %s else value))" % (_DC_CV, _DC_ACC)},
+                       "exclude": {"accepted_is_stored_converted": "implies(%s, value_at(_obj_self.__dict__, field.attname, %s))" % (_DC_ACC, _DC_CV)}}
+    raises = {"Exception": {"state_unchanged": _DC_UNCHANGED}}
+    only_raises = ["UpdateError", "ParseError"]
+    modifies = ["_obj_self.__dict__"]
+
+
+DC_SETTER.cases = {pol: dict(_obj_self=Rec("DataClassInstance"), value=OBJ, field=_plain_field(pol)) for pol in ("throw", "exclude", "preserve")}
+DC_SETTER.closure = dict(self=_dc_parser(), field=_plain_field("throw"), post_setattr=NONE)
+
+
+@contract("utype/parser/cls.py", "ClassParser.make_deleter.<locals>.deleter", props=["C07"])
+class DC_DELETER:
+    """deleting an attribute of a DataClass instance: refused for immutable, required and absent fields;
+    otherwise exactly that attribute goes"""
+    cases = {"plain": dict(_obj_self=Rec("DataClassInstance"))}
+    closure = dict(self=_dc_parser(), field=_del_field(), post_delattr=NONE)
+    setup = staticmethod(_dc_setup)
+    returns = {"only_deletable": "not (self.options.immutable or field.final or field.field.immutable) and not "
+                                 "((not self.options.ignore_required) and (field.required is True) and not ((field.final and not field.no_default) or (field.no_input is True)))",
+               "attribute_gone": "not has_key(_obj_self.__dict__, field.attname)",
+               "other_attributes_untouched": "others_untouched(_obj_self.__dict__, old(snap(_obj_self.__dict__)), field.attname)"}
+    raises = {"Exception": {"state_unchanged": _DC_UNCHANGED}}
+    only_raises = ["DeleteError"]
+    modifies = ["_obj_self.__dict__"]
